@@ -395,7 +395,7 @@ def known_functions():
         with open(path) as fh:
             data = json.load(fh)
         _KNOWN = {k: set(v) for k, v in data['functions'].items()}
-        _KNOWN_EXTRA.update({'digests': data.get('digests', {}), 'attrs': data.get('attrs', {}), 'constants': data.get('constants', {})})
+        _KNOWN_EXTRA.update({'digests': data.get('digests', {}), 'attrs': data.get('attrs', {}), 'constants': data.get('constants', {}), 'shapes': data.get('shapes', {})})
     return _KNOWN
 
 
@@ -408,6 +408,72 @@ def fn_digest(node):
     body = [b for b in node.body if not (isinstance(b, ast.Expr) and isinstance(b.value, ast.Constant) and isinstance(b.value.value, str))]
     text = ast.dump(node.args) + '|' + '|'.join(ast.dump(b) for b in body)
     text = text.replace(repr(node.name), "'<own name>'")
+    return hashlib.md5(text.encode('utf8')).hexdigest()[:16]
+
+
+def fn_shape(node):
+    """like fn_digest, but blind to the names of the function's own variables, of the fields it reaches through its first parameter and of
+    the functions and classes nested in it: the shape that survives a consistent renaming"""
+    import copy
+    import hashlib
+    n = copy.deepcopy(node)
+    n.body = [b for b in n.body if not (isinstance(b, ast.Expr) and isinstance(b.value, ast.Constant) and isinstance(b.value.value, str))]
+    for x in ast.walk(n):
+        if isinstance(x, (ast.FunctionDef, ast.ClassDef)) and x.body and isinstance(x.body[0], ast.Expr) and isinstance(x.body[0].value, ast.Constant) and isinstance(x.body[0].value.value, str):
+            x.body = x.body[1:] or [ast.Pass()]
+    bound = set()
+    for x in ast.walk(n):
+        if isinstance(x, ast.arg):
+            bound.add(x.arg)
+        elif isinstance(x, ast.Name) and isinstance(x.ctx, (ast.Store, ast.Del)):
+            bound.add(x.id)
+        elif isinstance(x, (ast.FunctionDef, ast.ClassDef)) and x is not n:
+            bound.add(x.name)
+        elif isinstance(x, ast.ExceptHandler) and x.name:
+            bound.add(x.name)
+    recv = n.args.args[0].arg if n.args.args else None
+    names, attrs = {}, {}
+
+    def nm(v):
+        return names.setdefault(v, 'v%d' % len(names))
+    # ast.walk is breadth first; a source-order walk gives stable numbering
+    class _V(ast.NodeVisitor):
+        def visit_arg(self, x):
+            x.arg = nm(x.arg)
+
+        def visit_Name(self, x):
+            if x.id in bound:
+                x.id = nm(x.id)
+
+        scope = [0]
+
+        def visit_Attribute(self, x):
+            self.generic_visit(x)
+            if isinstance(x.value, ast.Name) and recv is not None and x.value.id == names.get(recv):
+                # the receiver of a method of a nested class is another object: its fields are numbered on their own
+                tab = attrs.setdefault(self.scope[-1], {})
+                x.attr = tab.setdefault(x.attr, 'a%d_%d' % (self.scope[-1], len(tab)))
+
+        def visit_FunctionDef(self, x):
+            if x is not n:
+                x.name = nm(x.name)
+            self.generic_visit(x)
+
+        def visit_ClassDef(self, x):
+            x.name = nm(x.name)
+            self.scope.append(len(attrs) + len(self.scope))
+            self.generic_visit(x)
+            self.scope.pop()
+
+        def visit_ExceptHandler(self, x):
+            if x.name:
+                x.name = nm(x.name)
+            self.generic_visit(x)
+
+        def visit_keyword(self, x):
+            self.generic_visit(x)
+    _V().visit(n)
+    text = ast.dump(n.args) + '|' + '|'.join(ast.dump(b) for b in n.body)
     return hashlib.md5(text.encode('utf8')).hexdigest()[:16]
 
 
@@ -474,9 +540,16 @@ def undo_renames(trees):
     news = [(rel, q, n) for rel in tables for q, n in tables[rel].items() if q not in digests.get(rel, {}) and rel in digests]
     renames = {}       # new simple name -> known simple name
     moves = []
+    shapes = _KNOWN_EXTRA.get('shapes', {})
     for (rel, q) in vanished:
         d = digests[rel][q]
         cands = [(r2, q2, n) for (r2, q2, n) in news if fn_digest(n) == d]
+        if not cands and q in shapes.get(rel, {}):
+            # renamed together with its variables / fields: the shape that is blind to those names, among the new functions of the same owner
+            owner = q.rsplit('.', 1)[0] if '.' in q else ''
+            same_shape = [k for k, v in shapes[rel].items() if v == shapes[rel][q]]
+            if len(same_shape) == 1:
+                cands = [(r2, q2, n) for (r2, q2, n) in news if r2 == rel and (q2.rsplit('.', 1)[0] if '.' in q2 else '') == owner and fn_shape(n) == shapes[rel][q]]
         if len(cands) != 1:
             continue
         r2, q2, node = cands[0]
